@@ -1446,7 +1446,15 @@ impl ProtocolState {
                 self.encoder.reset(packet, &encode_context)?;
             }
 
-            let packet = &self.operations.get(&self.current_operation.unwrap()).unwrap().packet;
+            let current_operation_option = self.operations.get(&self.current_operation.unwrap());
+            if current_operation_option.is_none() {
+                // the operation was failed (ack timeout) while one of its packets was only partially
+                // written; the byte stream of this connection cannot be completed any more
+                error!("[{} ms] service_queue - operation {} no longer exists but is partially encoded", self.elapsed_time_ms, self.current_operation.unwrap());
+                return Err(GneissError::new_internal_state_error("current operation completed while partially encoded"));
+            }
+
+            let packet = &current_operation_option.unwrap().packet;
 
 
             let encode_result = self.encoder.encode(packet, context.to_socket)?;
